@@ -84,21 +84,31 @@ def record(r, cid, sec, tokens):
     kind, val, logs = parse_logged(text)
     ck, cval, _ = parse_logged(assemble(sec, clean_body))
     rec = {"id": cid, "props": ["C14"], "kind": "dispatch", "sec": sec, "lines": list(tokens), "raised": "", "got": [[], [], []],
-           "warn": [], "clean": "", "dirty": ""}
+           "warn": [], "bogus": 0, "clean": "", "dirty": ""}
     if kind != "chart" or ck != "chart":
         rec["raised"] = type(val if kind != "chart" else cval).__name__
         return rec, text
     rec["got"] = observed(sec, val, ticks)
     rec["clean"], rec["dirty"] = sec_digest(sec, cval), sec_digest(sec, val)
-    # reports are attributed in order: the j-th report must name the j-th unparsable line (verbatim, as it
-    # stands in the file, i.e. with the section's indentation)
+    # Reports (records of level >= WARNING on a chartparse logger, or warnings) are attributed in order: a report
+    # names a line if it contains the line verbatim, as it stands in the file, in double quotes.  Reports that
+    # name no body line at all (e.g. a summary) are ignored; a second report for the same unparsable line counts
+    # as index 0 (never a valid index); a report naming a CLAIMED line is counted in `bogus`.
     junk_idx = [k for k, tok in enumerate(tokens, start=1) if tok == "junk"]
     reports = [msg for name, level, msg in logs if level >= logging.WARNING and name.startswith("chartparse")]
-    for j, msg in enumerate(reports):
-        idx = 0
+    valid_texts = {'"  ' + ln + '"' for ln, tok in zip(body, tokens) if tok != "junk"}
+    junk_texts = {'"  ' + body[k - 1] + '"' for k in junk_idx}
+    j = 0
+    bogus = 0
+    for msg in reports:
         if j < len(junk_idx) and ('"  ' + body[junk_idx[j] - 1] + '"') in msg:
-            idx = junk_idx[j]
-        rec["warn"].append(idx)
+            rec["warn"].append(junk_idx[j])
+            j += 1
+        elif j > 0 and ('"  ' + body[junk_idx[j - 1] - 1] + '"') in msg:
+            rec["warn"].append(0)
+        elif any(t in msg for t in valid_texts - junk_texts):
+            bogus += 1
+    rec["bogus"] = bogus
     return rec, text
 
 
